@@ -10106,6 +10106,14 @@ func (l *Lowerer) resolveIdentifier(name string) (ir.ExpressionHandle, error) {
 	// removes it. A fresh concretized expression is created at the reference site.
 	if ast, ok := l.localAbstractASTs[name]; ok {
 		l.usedLocals[name] = true
+		// An initialiser that folded to a literal at the declaration is copied
+		// rather than lowered again: const a1 = a0 ^ a0; const a2 = a1 ^ a1; ...
+		// would otherwise be lowered 2^n times.
+		if h, ok := l.locals[name]; ok && l.currentFunc != nil && int(h) < len(l.currentFunc.Expressions) {
+			if lit, isLit := l.currentFunc.Expressions[h].Kind.(ir.Literal); isLit {
+				return l.interruptEmitter(ir.Expression{Kind: lit}), nil
+			}
+		}
 		handle, err := l.lowerExpression(ast, l.currentEmitTarget)
 		if err != nil {
 			return 0, err
